@@ -805,6 +805,12 @@ class _ExprMixin:
         op = BINOPS[type(n.op)]
         if op == "mod":
             if is_const(a, str) or (isinstance(a, Op) and a.op in ("fmt", "concat")):
+                if not is_const(a, str) and any(isinstance(x_, Op) and x_.op in ("excobj", "elem", "call:os.path.join", "call:os.path.basename")
+                                                for x_ in walk(a)):
+                    # a %-format whose format string contains run-time text (a file name, an exception message): a '%' in that
+                    # text is taken for a conversion (ValueError / TypeError)
+                    self.event("raise", (Op("call:ValueError", Const("format string built from run-time text")),), n)
+                    self.note_raise(self.local_guard(state=True))
                 return pct_format(a, self.tuple_to_term(b))
         if op == "add":
             la, lb = self.as_list(a), self.as_list(b)
@@ -1194,6 +1200,12 @@ class _ExprMixin:
                 return Op("getitem", base, idx)
             if isinstance(o, DictObj):
                 hit = o.lookup(idx)
+                if isinstance(idx, Op) and idx.op == "enum" and o.prev_iter is None and o.entries and all(
+                        (isinstance(k, Const) or (isinstance(k, Op) and k.op == "enum")) and g == TRUE and not lc for k, v, g, lc in o.entries):
+                    # a literal table keyed by enumeration members, indexed with a member
+                    if hit is not None:
+                        return hit[0]
+                    return Op("keyerror", base, idx)
                 if hit is not None and isinstance(idx, Const):
                     v, g, lc = hit
                     if g == TRUE and not lc:
@@ -1536,6 +1548,11 @@ class _CallMixin:
                 for is_attr, key in path:
                     v = self.get_attr(v, key, node) if is_attr else self.getitem(v, Const(key), node)
                 return v
+            if not is_const(recv, str) and any(isinstance(x_, Op) and x_.op == "excobj" for x_ in walk(recv)):
+                # a format string that contains the text of a caught exception: any '{' / '}' in that text is taken for a
+                # replacement field (ValueError / KeyError / IndexError)
+                self.event("raise", (Op("call:ValueError", Const("format string built from an exception message")),), node)
+                self.note_raise(self.local_guard(state=True))
             return str_format(recv, args, kwargs, _follow)
         if name in ("removeprefix", "removesuffix") and len(args) == 1 and is_const(args[0], (str, bytes)) and args[0].v and not kwargs:
             # canonical form: the test-and-slice idiom
@@ -3500,6 +3517,30 @@ class _ExtMixin:
 
     def x_json_loads(self, a, k, n):
         return Op("json.loads", a[0])
+
+    def _run_callback_once(self, f, n):
+        """a repository function handed to a library routine as callback (re.sub(pattern, fn, text)): it may run, any number
+        of times - its effects (writes into shared / caller-owned containers, raises) are recorded by interpreting it once
+        on an opaque argument under a fresh 'callback runs' condition"""
+        f = self.simp(f)
+        if not (isinstance(f, FuncV) or (isinstance(f, Op) and f.op in ("lambda", "bound", "partial"))):
+            return
+        c = self.fresh("exc@cb%s" % getattr(n, "lineno", "?"), "exc", n)
+        self.guard.append(c)
+        try:
+            if self.feasible():
+                self.call_value(f, [Sym("cbarg@%s" % getattr(n, "lineno", "?"))], {}, n)
+        except AnalysisError:
+            pass
+        finally:
+            self.guard.pop()
+
+    def x_re_sub(self, a, k, n):
+        if len(a) >= 2:
+            self._run_callback_once(a[1], n)
+        return None
+
+    x_re_subn = x_re_sub
 
     def x_re_compile(self, a, k, n):
         return Op("re.compile", *a)
